@@ -255,6 +255,12 @@ def cases_for(rng, n, ctx):
             pool = {'J|r1': gen.make_idl(rng, str(rng.choice(['contig', 'irregular'])), N)}
             nf = int(rng.integers(2, 4))
             mats = [obs_matrix(rng, pool, values_matrix(rng, m)) for _ in range(nf)]
+            # a caller who exported an entry's jackknife samples before and went on working with that array has not touched the entry
+            e00 = mats[0][0, 0]
+            if isinstance(e00, pe.Obs) and len(e00.names) == 1 and rng.random() < 0.5:
+                scr = _call(lambda: e00.export_jackknife())
+                if not isinstance(scr, Exception):
+                    scr *= 3.0
             if op == 'jack':
                 r = framed([mats], lambda: pe.linalg.jack_matmul(*mats))
                 what = 'jack_matmul'
